@@ -334,17 +334,30 @@ def run(ctx) -> list[Inst]:
                                       props=props))
         # ---------------------------------------------------------------- (e) memo protocol
         has_lookup = has_store = False
+        tested = returned = False
         for n in own_nodes(f.node):
-            if isinstance(n, ast.If):
-                t = n.test
-                if isinstance(t, ast.Compare) and isinstance(t.ops[0], ast.In) \
-                        and isinstance(t.comparators[0], ast.Name) and t.comparators[0].id == memon \
-                        and isinstance(t.left, ast.Call) and isinstance(t.left.func, ast.Name) \
-                        and t.left.func.id == 'id':
-                    if any(isinstance(b, ast.Return) for b in n.body):
-                        has_lookup = True
+            if isinstance(n, (ast.If, ast.IfExp)):
+                for t in ast.walk(n.test):
+                    # `id(self) in memo` / `id(self) not in memo` / `memo.get(id(self))`
+                    if isinstance(t, ast.Compare) and isinstance(t.ops[0], (ast.In, ast.NotIn)) \
+                            and isinstance(t.comparators[0], ast.Name) and t.comparators[0].id == memon \
+                            and isinstance(t.left, ast.Call) and isinstance(t.left.func, ast.Name) \
+                            and t.left.func.id == 'id':
+                        tested = True
+                    if isinstance(t, ast.Call) and isinstance(t.func, ast.Attribute) and t.func.attr == 'get' \
+                            and isinstance(t.func.value, ast.Name) and t.func.value.id == memon:
+                        tested = True
+            if isinstance(n, ast.Return) and n.value is not None and (
+                    _memo_index(n.value, memon) == selfn or
+                    (isinstance(n.value, ast.Name) and any(
+                        isinstance(a, (ast.Assign, ast.NamedExpr)) and
+                        isinstance(getattr(a, 'value', None), ast.Call) and isinstance(a.value.func, ast.Attribute)
+                        and a.value.func.attr == 'get' and isinstance(a.value.func.value, ast.Name)
+                        and a.value.func.value.id == memon for a in own_nodes(f.node)))):
+                returned = True
             if isinstance(n, ast.Assign) and len(n.targets) == 1 and _memo_index(n.targets[0], memon) == selfn:
                 has_store = True
+        has_lookup = tested and returned
         if cname != 'AttackGraph':
             insts.append(Inst(
                 RULE, f.short, '(e) memo consulted and copy registered under id(self)',
